@@ -9,7 +9,9 @@ export CARGO_TERM_COLOR=never
 . "$HERE/engine/env.sh" || exit 2
 rc=0
 build_zoo || rc=2
-for pkg in vprim vrt; do
+for pkg in vprim vrt vfront vdiff; do
   build_bin "$pkg" || rc=2
 done
+# C19's second build of the runner (feature descriptive-deserialize-errors)
+CARGO_TARGET_DIR="$TARGET_DIR/ddx" build_bin vdiff --features ddx || rc=2
 exit $rc
